@@ -29,6 +29,12 @@ Thread family (round 5, oracle only, vlib/c03_threads.py): `tcpmt` - 2 to 4 thre
           recv_packet() (with a part of a frame taken), others with recv_packet(timeout=0 | small) /
           iter_received_packets(timeout=0 | small), the peer feeding the stream in between: together they receive exactly what
           was sent, each packet once, per thread in stream order, every call ends with a packet / TimeoutError / the end.
+Interrupted receives (round 7, oracle only, vlib/c03_interrupt.py): `aint` - AsyncStreamEndpoint (socketpair) / AsyncTCPNetworkClient
+          (loopback) on the REAL asyncio transport and selector loop: receives interrupted (task.cancel, cancel scope,
+          backend.timeout / move_on_after / wait_for with 0 or a few ms, iter_received_packets(timeout)) in the same event-loop
+          turn as the arrival of their data (I/O first or cancellation first), before it, after it, together with the peer's
+          FIN; then the rest of the stream, the close and a drain: all calls together deliver every packet once, in order,
+          then the end.
 """
 from __future__ import annotations
 
@@ -40,7 +46,7 @@ import threading
 from typing import Any
 
 from vlib import core, sers, streamdrive as sd
-from vlib import c03_threads as mt, c03_tls as tls
+from vlib import c03_interrupt as ai, c03_threads as mt, c03_tls as tls
 
 from easynetwork.exceptions import StreamProtocolParseError
 from easynetwork.lowlevel.api_async.backend._asyncio.backend import AsyncIOBackend
@@ -80,6 +86,9 @@ RULE = ("case = serializer x path x API x script (chunking, would-block/reset/os
         "standard_compatible x OP_IGNORE_UNEXPECTED_EOF x record cutting x ciphertext chunking x late arrivals x end of the stream "
         "(close_notify / ragged EOF / reset / OSError / none) at a record boundary or inside a record x call history; "
         "threads: 2-4 threads on one TCPNetworkClient x feeds cut inside frames x parked / bounded / racing calls; "
+        "interrupted receives on the real asyncio transport (endpoint / client, both protocols): mechanism (cancel, scope, timeout, "
+        "move_on_after, wait_for, iterator timeout) x order relative to the arrival (same turn I/O first / cancellation first, "
+        "expired deadline, before, after, with the FIN) x piece of the stream x turns before the arrival; "
         "non-trivial = close inside a frame or before any data, or a would-block/zero-timeout call, or calls after end-of-stream, "
         "or a fault between receives; distinct by digest")
 
@@ -550,6 +559,8 @@ def run_real(case: dict) -> list[str]:
         return tls.run_loopback_checked(case)
     if case["api"] == "tcpmt":
         return mt.run(case, _count_items_fn(case["spec"]))
+    if case["api"] == "aint":
+        return ai.run_checked(case, _classify)
     if case["api"] in ("tcp", "atcp") and case.get("mid"):
         return _run_tcp_mid(case)
     if case["api"] in ("tcp", "atcp"):
@@ -558,7 +569,7 @@ def run_real(case: dict) -> list[str]:
 
 
 def model_input(case: dict, real: list[str]):
-    if case["api"] in ("tcp", "atcp", "tcpmt") + TLS_APIS:
+    if case["api"] in ("tcp", "atcp", "tcpmt", "aint") + TLS_APIS:
         return None
     if case["api"] == "async" and any(c["t"] == "zero" for c in case["calls"]):
         return None       # expired-deadline receives on the asynchronous endpoint: judged by the oracle only
@@ -690,6 +701,8 @@ def oracle(case: dict, real: list[str]) -> str | None:
         return tls.oracle(case, real, _decode_items)
     if case["api"] == "tcpmt":
         return mt.oracle(case, real, _expected(case)[0])
+    if case["api"] == "aint":
+        return ai.oracle(case, real, _expected(case)[0])
     # the class of the end-of-stream report is judged on its own; everything else (order, completeness, stickiness) is judged
     # on the history with every such report read as an end-of-stream
     wrong = [(k, ln.split()[1]) for k, ln in enumerate(ln for ln in real if not ln.startswith(("nreads ", "send ", "fault ")) and ln != "iter-end")
@@ -758,6 +771,8 @@ def nontrivial(case: dict, real: list[str]) -> str | None:
         return tls.nontrivial(case, real)
     if case["api"] == "tcpmt":
         return mt.nontrivial(case, real)
+    if case["api"] == "aint":
+        return ai.nontrivial(case, real)
     outs = [ln for ln in real if not ln.startswith(("nreads ", "send ", "fault ")) and ln != "iter-end"]
     tags = []
     if outs.count("eos") >= 2:
@@ -786,6 +801,9 @@ def shrink(case: dict):
                 yield {**case, "plan": plan[:i] + plan[i + 1:]}
         if case.get("nthreads", 2) > 2:
             yield {**case, "nthreads": case["nthreads"] - 1}
+        return
+    if case["api"] == "aint":
+        yield from ai.shrink(case)
         return
     ev = case["events"]
     for i in range(len(ev)):
@@ -947,6 +965,20 @@ def _gen_mt_case(rng) -> dict:
             "close_inside": _inside_frame(base["spec"], data), "calls": []}
 
 
+def _gen_aint_case(rng) -> dict:
+    """interrupted receives on the real asyncio transport (vlib/c03_interrupt.py)"""
+    base = _gen_case(rng, "tcp")
+    data = b"".join(bytes.fromhex(e[1]) for e in base["events"] if e[0] == "data")
+    layer = rng.choice(["endpoint", "client"])
+    path = "buffered" if (sers.is_buffered(base["spec"]) and rng.random() < 0.65) else "copy"
+    return {"api": "aint", "layer": layer, "spec": base["spec"], "path": path,
+            "maxrecv": rng.choice([1, 3, 8, 64, 16384, 16384, 16384]),
+            "events": [["data", data.hex()], ["eof"]] if data else [["eof"]],
+            "plan": ai.gen_plan(rng, data, _frame_ends(base["spec"], data), layer == "client"),
+            "ndrain": len(_decode_items(base["spec"], data)) + 4,
+            "close_inside": _inside_frame(base["spec"], data), "calls": []}
+
+
 def corpus() -> list[dict]:
     crlf = {"k": "line", "newline": "CRLF", "keep_end": False, "encoding": "ascii", "limit": 16}
     out = []
@@ -1038,6 +1070,25 @@ def corpus() -> list[dict]:
                           (3, [["feed"], ["park", "none"], ["race", "recv", "small"], ["feed"], ["park", "long"],
                                ["call", "iter", "zero"], ["close"]])):
             out.append({**base, "nthreads": nth, "plan": plan})
+    # interrupted receives on the REAL asyncio transport (round 7): a receive parked on the empty transport is interrupted in the
+    # event-loop turn in which its data arrives (I/O callback first, then the timer / the cancellation; the reader wakes up in
+    # the next turn), then more receives: A, B, C, D exactly once, in order, then the end
+    for layer in ("endpoint", "client"):
+        for path in ("copy", "buffered"):
+            base = {"api": "aint", "layer": layer, "spec": lf, "path": path, "maxrecv": 16384, "ndrain": 8, "close_inside": False,
+                    "events": [["data", "410a420a430a440a"], ["eof"]], "calls": []}
+            for mech in ai.MECHS:
+                for order in ("io-first", "zero", "eof"):
+                    out.append({**base, "plan": [{"k": "recv", "mech": mech, "order": order, "feed": 2, "park": 6},
+                                                 {"k": "recv", "mech": mech, "order": "after", "feed": 1, "park": 6},
+                                                 {"k": "recv", "mech": mech, "order": order, "feed": 3, "park": 2}]})
+            out.append({**base, "plan": [{"k": "recv", "mech": "cancel", "order": "cancel-first", "feed": 2, "park": 6},
+                                         {"k": "recv", "mech": "timeout", "order": "before", "feed": 3, "park": 6},
+                                         {"k": "recv", "mech": "scope", "order": "io-first", "feed": 1, "park": 0}]})
+            if layer == "client":
+                for order in ("io-first", "zero", "eof"):
+                    out.append({**base, "plan": [{"k": "iter", "mech": "timeout", "order": order, "feed": 4, "park": 6},
+                                                 {"k": "iter", "mech": "timeout", "order": order, "feed": 1, "park": 6}]})
     # asynchronous endpoint: receives under an expired deadline while complete packets are buffered
     for path in ("copy", "buffered"):
         out.append({"spec": crlf, "path": path, "api": "async", "events": [["data", "610d0a620d0a630d0a"], ["data", "640d0a"], ["eof"]],
@@ -1060,6 +1111,8 @@ def generate(rng, tier: str, boost: int):
         yield _gen_tls_case(rng, True)
     for _ in range((120 if tier == "quick" else 1200) * boost):
         yield _gen_mt_case(rng)
+    for _ in range((260 if tier == "quick" else 3000) * boost):
+        yield _gen_aint_case(rng)
 
 
 def after_batch() -> None:
